@@ -139,6 +139,10 @@ def run_cases(ctx: Ctx, cases: Iterable[Case], res: Result,
         for k, op in enumerate(case.ops):
             o = rd.do(op)
             outs.append(o)
+            if bad is None and o.startswith('event-altered'):
+                res.violations.append(Violation('event-altered', f"at {op!r} (step {k}): {o}", {**case.to_json(), 'failing_step': k}))
+                bad = (k, o, o)
+                rdec = None
             if bad is None and o.startswith('wrong-local-flag'):
                 res.violations.append(Violation('wrong-local-flag', f"at {op!r} (step {k}): {o}", {**case.to_json(), 'failing_step': k}))
                 bad = (k, o, o)
